@@ -25,7 +25,46 @@ def _ansi_contracts():
     return sorted(n for n in r.contracts if n != 'pexpect.ANSI.ANSI.process')
 
 
+def _transport_contracts(kinds):
+    from . import transports as tr
+    out = []
+    for cls in tr.TRANSPORTS:
+        for m in kinds:
+            out.append('%s.%s' % (cls, m))
+    return out
+
+
+SB = 'pexpect.spawnbase.SpawnBase.'
+PTYC = 'pexpect.pty_spawn.spawn.'
+FDC = 'pexpect.fdpexpect.fdspawn'
+
 PROPS = {
+    'C08': {
+        'contracts': _transport_contracts(['send', 'sendline', 'write', 'writelines']) +
+                     [PTYC + 'sendcontrol', PTYC + 'sendeof', PTYC + 'sendintr'],
+        'assumptions': [
+            'a blocking os.write / pipe write / socket.sendall writes all bytes and os.write returns their number (partial writes on non-blocking descriptors supplied by the user are outside the contracts)',
+            'the instance incremental encoder produces a function of the text (EncodeText) and is a homomorphism on concatenation (needed only to equate PopenSpawn.sendline, which sends line and separator separately, with the other transports)',
+            'ptyprocess.sendcontrol/sendeof/sendintr write exactly one byte to the child and return (1, byte) (ptyprocess 0.7.0, read during design)',
+            'time.sleep(delaybeforesend) requires a non-negative delay',
+        ],
+    },
+    'C11': {
+        'contracts': [SB + '_log'] + _transport_contracts(['send', 'sendline', 'write', 'writelines']) +
+                     [PTYC + 'sendcontrol', PTYC + 'sendeof', PTYC + 'sendintr', (SB + 'read_nonblocking', FDC)],
+        'assumptions': [
+            'log file objects implement write(text) / flush(); two log attributes do not alias the same file object',
+            'the read paths of PopenSpawn / SocketSpawn / asyncio and interact() are not yet under contract in this check',
+        ],
+    },
+    'C07': {
+        'contracts': [(SB + 'read_nonblocking', FDC)],
+        'assumptions': [
+            'codecs incremental decoders are homomorphisms on streams that do not end inside a character: dec(a) ++ dec(b) == dec(a ++ b) (sampled dynamically in the thorough tier); given that, feeding every chunk exactly once, in order, with final=False to the one decoder of the instance delivers the decoding of the whole stream',
+            'os.read returns a non-empty chunk of at most the requested size, b"" or raises OSError',
+            'PopenSpawn / SocketSpawn / asyncio read paths not yet under contract in this check',
+        ],
+    },
     'C13': {
         'contracts': ['pexpect.utils.split_command_line', 'pexpect.utils.is_executable_file', 'pexpect.utils.which'],
         'extra': 'contracts.extra_c13',
